@@ -679,7 +679,7 @@ impl Family for Generics {
         &["C07", "C01", "C02", "C03", "C04"]
     }
     fn rule(&self) -> &'static str {
-        "32 generic templates (a two-parameter generic struct whose fields are read inside generic code at an instance with the function's parameters in the other order / shifted; a generic function calling itself with its type parameters swapped; a type parameter of a function / of a method / of an impl block that the signature never mentions (rejected, or valid); a method with a type parameter of its own inside a generic impl, at two instantiations for one receiver type; 8 where the type parameter occurs in the signature only underneath Vec / Ref / array / tuple / Opt / a generic struct / Vec[Ref[.]] / Ref[Vec[.]], each instantiated at two types; a type parameter occurring only in the result type at two instantiations agreeing on the argument-bound parameter, zero-argument generic fixed by the expected type, the same generic at (A,B) and (B,A), Vec/Ref/array element generics, id, pair, apply, Opt unwrap, generic struct with inherent method, trait dispatch through a bound at two impl types, generic calling generic at (T,T), recursive List[T], two bounds, two instances in one program, generic fn as a value, nested instantiation) x 13 type arguments {int32,bool,string,unit,(int32,bool),[int32;2],Vec[int32],Ref[int32],(int32)->int32,S,E2,Opt[int32],Opt[Opt[bool]]} (all ordered pairs for two-parameter templates in thorough, a diagonal band in quick); oracle: output = type-passing reference semantics, emitted Go valid (no type-parameter residue can survive the Go checker); plus 9 polymorphic-recursion programs (a generic function reaching itself at a doubled tuple / Vec / Opt / pair-with-int type, through a second function, through a method, and by two or three recursive calls at different larger types, so that the instances multiply long before any type is large) which must terminate, accepted or rejected, and 2 finite chains of 12 and 40 generic functions each calling the next at a larger type, which must compile and print their length; 4 generic types that mention themselves at a larger instance (enum, struct, through a second type; declared and never used: must be accepted) which must terminate and, if accepted, be valid Go printing the value, 2 regular recursive types (List[T]; one with its parameters permuted) which must be accepted, and 3 associated functions of a generic impl (the impl's parameter unmentioned: rejected or valid Go; in the argument; in the result only: accepted); and 10 generic functions whose type parameter occurs at exactly one place of the signature (a parameter; the result of a function-typed parameter, without and with an argument; the result of its result; function results inside a vector or a tuple; a tuple or vector result of a function-typed parameter; function results in parameters and in the result; through a second generic function), each called at int32, bool and string in one program and dispatching through the bound; and 7 generic types whose field applies another generic type to their own parameter (struct field, recursive struct, enum payload, two levels, tuple field, vector field, an argument nested twice), instantiated at Box[int32] and Box[string]. non-trivial = instantiations at non-scalar types; distinct = distinct source text"
+        "32 generic templates (a two-parameter generic struct whose fields are read inside generic code at an instance with the function's parameters in the other order / shifted; a generic function calling itself with its type parameters swapped; a type parameter of a function / of a method / of an impl block that the signature never mentions (rejected, or valid); a method with a type parameter of its own inside a generic impl, at two instantiations for one receiver type; 8 where the type parameter occurs in the signature only underneath Vec / Ref / array / tuple / Opt / a generic struct / Vec[Ref[.]] / Ref[Vec[.]], each instantiated at two types; a type parameter occurring only in the result type at two instantiations agreeing on the argument-bound parameter, zero-argument generic fixed by the expected type, the same generic at (A,B) and (B,A), Vec/Ref/array element generics, id, pair, apply, Opt unwrap, generic struct with inherent method, trait dispatch through a bound at two impl types, generic calling generic at (T,T), recursive List[T], two bounds, two instances in one program, generic fn as a value, nested instantiation) x 13 type arguments {int32,bool,string,unit,(int32,bool),[int32;2],Vec[int32],Ref[int32],(int32)->int32,S,E2,Opt[int32],Opt[Opt[bool]]} (all ordered pairs for two-parameter templates in thorough, a diagonal band in quick); oracle: output = type-passing reference semantics, emitted Go valid (no type-parameter residue can survive the Go checker); plus 9 polymorphic-recursion programs (a generic function reaching itself at a doubled tuple / Vec / Opt / pair-with-int type, through a second function, through a method, and by two or three recursive calls at different larger types, so that the instances multiply long before any type is large) which must terminate, accepted or rejected, and 2 finite chains of 12 and 40 generic functions each calling the next at a larger type, which must compile and print their length; 7 generic types that mention themselves at a larger instance (enum, struct, through a second type; at two or three different larger instances, so that the instances multiply; declared and never used: must be accepted) which must terminate and, if accepted, be valid Go printing the value, 2 regular recursive types (List[T]; one with its parameters permuted) which must be accepted, and 3 associated functions of a generic impl (the impl's parameter unmentioned: rejected or valid Go; in the argument; in the result only: accepted); and 10 generic functions whose type parameter occurs at exactly one place of the signature (a parameter; the result of a function-typed parameter, without and with an argument; the result of its result; function results inside a vector or a tuple; a tuple or vector result of a function-typed parameter; function results in parameters and in the result; through a second generic function), each called at int32, bool and string in one program and dispatching through the bound; and 7 generic types whose field applies another generic type to their own parameter (struct field, recursive struct, enum payload, two levels, tuple field, vector field, an argument nested twice), instantiated at Box[int32] and Box[string]. non-trivial = instantiations at non-scalar types; distinct = distinct source text"
     }
     fn cases(&self, tier: Tier) -> Box<dyn Iterator<Item = Value> + '_> {
         let mut v = Vec::new();
@@ -702,7 +702,7 @@ impl Family for Generics {
         // reach itself at a larger type; and deep but finite instantiation chains must still compile
         for k in [
             "tuple-doubling", "vec-wrapping", "opt-wrapping", "pair-with-int", "mutual", "through-method", "branching-two-ways", "branching-through-two-functions", "branching-three-ways-slow-growth", "finite-depth-12", "finite-depth-40", "type-growing-enum", "type-growing-struct", "type-growing-mutual",
-            "type-growing-unused", "type-regular-recursion", "type-regular-permuting", "associated-fn-impl-param-unmentioned", "associated-fn-impl-param-in-result", "associated-fn-impl-param-in-result-only",
+            "type-growing-unused", "type-growing-two-ways", "type-growing-two-ways-struct", "type-growing-three-ways-through-a-second-type", "type-regular-recursion", "type-regular-permuting", "associated-fn-impl-param-unmentioned", "associated-fn-impl-param-in-result", "associated-fn-impl-param-in-result-only",
         ] {
             v.push(json!({"template": "polymorphic-recursion", "a": k, "b": "int32"}));
         }
@@ -770,6 +770,10 @@ impl Family for Generics {
                 "type-growing-struct" => ("enum Opt[T] { Non, Som(T) }\nstruct Grow[T] { v: T, next: Opt[Grow[(T, T)]] }\nfn main() {\n    let g: Grow[int32] = Grow { v: 1, next: Non };\n    string_println(int32_to_string(g.v))\n}\n".into(), Some("1\n".into()), false),
                 "type-growing-mutual" => ("enum Opt[T] { Non, Som(T) }\nstruct Aa[T] { v: T, b: Opt[Bb[Vec[T]]] }\nstruct Bb[T] { a: Opt[Aa[T]] }\nfn main() {\n    let a: Aa[int32] = Aa { v: 1, b: Non };\n    string_println(int32_to_string(a.v))\n}\n".into(), Some("1\n".into()), false),
                 "type-growing-unused" => ("struct Bx[T] { v: T }\nenum Nest[T] { Leaf(T), Node(Nest[Bx[T]]) }\nfn main() {\n    string_println(\"1\")\n}\n".into(), Some("1\n".into()), true),
+                // a type that mentions itself at two different larger instances: the instances double with every level
+                "type-growing-two-ways" => ("enum Nest[T] { Leaf(T), A(Nest[Ref[T]]), B(Nest[Vec[T]]) }\nfn main() {\n    let n: Nest[int32] = Nest::Leaf(1);\n    string_println(match n { Nest::Leaf(k) => int32_to_string(k), Nest::A(m) => \"a\", Nest::B(m) => \"b\" })\n}\n".into(), Some("1\n".into()), false),
+                "type-growing-two-ways-struct" => ("enum Opt[T] { Non, Som(T) }\nstruct Grow[T] { v: T, l: Opt[Grow[(T, int32)]], r: Opt[Grow[(int32, T)]] }\nfn main() {\n    let g: Grow[int32] = Grow { v: 1, l: Non, r: Non };\n    string_println(int32_to_string(g.v))\n}\n".into(), Some("1\n".into()), false),
+                "type-growing-three-ways-through-a-second-type" => ("enum Opt[T] { Non, Som(T) }\nstruct Aa[T] { v: T, b: Opt[Bb[Vec[T]]], c: Opt[Bb[Ref[T]]] }\nstruct Bb[T] { a: Opt[Aa[T]], d: Opt[Aa[(T, T)]] }\nfn main() {\n    let a: Aa[int32] = Aa { v: 1, b: Non, c: Non };\n    string_println(int32_to_string(a.v))\n}\n".into(), Some("1\n".into()), false),
                 // regular recursion: one instance
                 "type-regular-recursion" => ("enum List[T] { Nil, Cons(T, List[T]) }\nfn len[T](l: List[T]) -> int32 { match l { Nil => 0, Cons(h, t) => 1 + len(t) } }\nfn main() {\n    let l: List[int32] = Cons(1, Cons(2, Nil));\n    string_println(int32_to_string(len(l)))\n}\n".into(), Some("2\n".into()), true),
                 "type-regular-permuting" => ("enum Opt[T] { Non, Som(T) }\nstruct Sw[A, B] { a: A, next: Opt[Sw[B, A]] }\nfn main() {\n    let inner: Sw[bool, int32] = Sw { a: true, next: Non };\n    let s: Sw[int32, bool] = Sw { a: 2, next: Som(inner) };\n    string_println(int32_to_string(s.a))\n}\n".into(), Some("2\n".into()), true),
